@@ -40,10 +40,33 @@ def run(ctx):
                        'a worker that leaves with work still queued re-posts its own kick', floor=5)
     ctx.rule('R-C12e', 'NULL pool: work then completion of the same item, in that order, after the unlink; the local task is '
                        'registered on the empty -> non-empty transition of the local queue', floor=3)
+    ctx.rule('R-C12f', 'thread bound: a worker thread is started only under the pool lock on the edge started_threads < max_threads', floor=2)
+    ctx.section(thread_bound)
     ctx.section(callbacks)
     ctx.section(queues)
     ctx.section(submit)
     ctx.section(local)
+
+
+def thread_bound(ctx):
+    prog = ctx.prog
+    n = 0
+    for f in sorted(prog.all_funcs(), key=lambda f: f.q):
+        starts = [e for e in f.events() if is_call(e, 'iv_work_start_thread')]
+        if not starts:
+            continue
+        hd = holding(f)
+        ls = locksets(f)
+        for e in starts:
+            n += 1
+            A = hd.get((e['_b'], e['_i']), frozenset())
+            below = any(a[0] in ('<', '<=') and a[1].endswith('->started_threads') and a[2].endswith('max_threads') for a in A) or \
+                any(a[0] in ('>', '>=') and a[2].endswith('->started_threads') and a[1].endswith('max_threads') for a in A)
+            ctx.ob('R-C12f', '%s:start-below-maximum' % f.name, below and POOL in held(ls.get((e['_b'], e['_i']))), loc=e['loc'],
+                   detail='iv_work_start_thread is on the edge started_threads < max_threads, with the pool lock held (count and test cannot be separated)',
+                   path=None if below else path_to(f, e), fn=f.q)
+    if n < 2:
+        raise AnalysisBroken('thread start sites: %d found, 2 confirmed' % n)
 
 
 def callbacks(ctx):
